@@ -3,6 +3,7 @@ package c08
 import (
 	"fmt"
 	"math"
+	"math/big"
 
 	"github.com/paulmach/orb"
 	"github.com/paulmach/orb/clip"
@@ -195,12 +196,95 @@ func deepInBox(box orb.Bound, q orb.Point, m float64) bool {
 
 // ---------------------------------------------------------------- the ring oracle
 
-// worst observed |A-(A1+A2)| / tolerance (statistics only)
-var worstArea float64
+// worst observed |A-(A1+A2)| / tolerance, and the number of membership queries judged exactly on
+// rings with far vertices (statistics only)
+var (
+	worstArea  float64
+	farQueries int64
+)
 
 type ringInfo struct {
 	cut   bool // the output vertex list differs from the input's (the non-trivial rule)
 	empty bool // nothing was returned
+}
+
+func rat(f float64) *big.Rat { return new(big.Rat).SetFloat64(f) }
+
+// exactSide returns the sign of (b-a) x (q-a), exactly.
+func exactSide(a, b, q orb.Point) int {
+	l := new(big.Rat).Mul(new(big.Rat).Sub(rat(b[0]), rat(a[0])), new(big.Rat).Sub(rat(q[1]), rat(a[1])))
+	r := new(big.Rat).Mul(new(big.Rat).Sub(rat(b[1]), rat(a[1])), new(big.Rat).Sub(rat(q[0]), rat(a[0])))
+	return l.Cmp(r)
+}
+
+// exactEvenOdd is evenOdd in rational arithmetic (for rings with vertices very far from the box,
+// where the float evaluation of a crossing is not reliable at the scale of the box).
+func exactEvenOdd(r orb.Ring, q orb.Point) bool {
+	in := false
+	n := len(r)
+	for i := 0; i < n; i++ {
+		a, b := r[i], r[(i+1)%n]
+		if (a[1] > q[1]) != (b[1] > q[1]) {
+			// the crossing is to the right of q iff q is on the left of the edge directed upwards
+			s := exactSide(a, b, q)
+			if b[1] < a[1] {
+				s = -s
+			}
+			if s > 0 {
+				in = !in
+			}
+		}
+	}
+	return in
+}
+
+// nearEdgeExact: q is within band of the LINE through a and b (exact comparison of squares); used
+// only for edges that reach the neighbourhood of the box.
+func nearEdgeExact(a, b, q orb.Point, band float64) bool {
+	dx, dy := new(big.Rat).Sub(rat(b[0]), rat(a[0])), new(big.Rat).Sub(rat(b[1]), rat(a[1]))
+	l2 := new(big.Rat).Add(new(big.Rat).Mul(dx, dx), new(big.Rat).Mul(dy, dy))
+	if l2.Sign() == 0 {
+		return math.Hypot(q[0]-a[0], q[1]-a[1]) <= band
+	}
+	cr := new(big.Rat).Sub(new(big.Rat).Mul(dx, new(big.Rat).Sub(rat(q[1]), rat(a[1]))), new(big.Rat).Mul(dy, new(big.Rat).Sub(rat(q[0]), rat(a[0]))))
+	lhs := new(big.Rat).Mul(cr, cr)
+	rhs := new(big.Rat).Mul(new(big.Rat).Mul(rat(band), rat(band)), l2)
+	return lhs.Cmp(rhs) <= 0
+}
+
+// farRing: some vertex lies more than 2^20 box sizes away from the box. For such rings the
+// membership clause is judged at the scale of the BOX: even-odd membership in rational arithmetic,
+// and a query is left out only when it is within 1e-6 box sizes plus twice that edge's own
+// single-intersection rounding bound (64 eps (|coordinate| + |extent|), what a far end point costs a
+// correct float intersection) of the line of an edge whose bounding rectangle reaches the box.
+func farRing(box orb.Bound, ring orb.Ring) bool {
+	size := math.Max(box.Max[0]-box.Min[0], box.Max[1]-box.Min[1])
+	for _, p := range ring {
+		for d := 0; d < 2; d++ {
+			if p[d] < box.Min[d]-0x1p20*size || p[d] > box.Max[d]+0x1p20*size {
+				return true
+			}
+		}
+	}
+	return false
+}
+
+func farQueryUsable(box orb.Bound, ring orb.Ring, q orb.Point) bool {
+	size := math.Max(box.Max[0]-box.Min[0], box.Max[1]-box.Min[1])
+	n := len(ring)
+	for i := 0; i < n; i++ {
+		a, b := ring[i], ring[(i+1)%n]
+		t := exact.SegTolOf(a, b)
+		band := 1e-6*size + 2*math.Max(t.RX, t.RY)
+		if math.Max(a[0], b[0]) < box.Min[0]-band || math.Min(a[0], b[0]) > box.Max[0]+band ||
+			math.Max(a[1], b[1]) < box.Min[1]-band || math.Min(a[1], b[1]) > box.Max[1]+band {
+			continue // the edge stays clear of the box
+		}
+		if nearEdgeExact(a, b, q, band) {
+			return false
+		}
+	}
+	return true
 }
 
 // checkRing judges clip.Ring(box, ring) with the tolerances of tols. Areas:
@@ -255,7 +339,23 @@ func checkRing(box orb.Bound, ring orb.Ring, qs []orb.Point, splitX, splitY floa
 	}
 
 	// region: even-odd membership is preserved at every interior query point
+	far := farRing(box, ring)
+	boxMargin := 1e-6 * math.Max(box.Max[0]-box.Min[0], box.Max[1]-box.Min[1])
 	for _, q := range qs {
+		if far {
+			if !deepInBox(box, q, boxMargin) || !farQueryUsable(box, ring, q) {
+				continue
+			}
+			if out != nil && ringDist(out, q) <= boxMargin/2+2*exact.PathSingle(ring, true) {
+				continue
+			}
+			want := exactEvenOdd(ring, q)
+			if got := out != nil && evenOdd(out, q); got != want {
+				return info, fmt.Errorf("point %v inside the box %v: in clipped ring = %v, in original ring = %v (exact); ring with far vertices %v -> %v", q, box, got, want, ring, out)
+			}
+			farQueries++
+			continue
+		}
 		if !deepInBox(box, q, margin) || ringDist(ring, q) <= margin {
 			continue
 		}
